@@ -150,6 +150,22 @@ def check(case, ctx):
     if o_f.ok and o_c.ok and o_c.value.X is not None:
         ctx.le("constructor with int coordinates gives the same field as the method with floats (nT)", float(np.abs(o_f.value - np.array([o_c.value.X, o_c.value.Y, o_c.value.Z], float)).max()), 1e-9,
                {"lat": li, "lon": lo_, "h": hi_}, route="constructor")
+    # the other documented spellings of a date: a whole year typed as int, a datetime.datetime for a datetime.date
+    import datetime as _dt
+    alt = None
+    if isinstance(d_arg, float) and d_arg == int(d_arg):
+        alt = ("whole year typed as int", int(d_arg))
+    elif isinstance(d_arg, _dt.date) and not isinstance(d_arg, _dt.datetime):
+        alt = ("datetime.datetime of the same day", _dt.datetime(d_arg.year, d_arg.month, d_arg.day, 13, 30))
+    if alt is not None:
+        def with_date(dd):
+            w = WMM()
+            w.magnetic_field(lat, lon, h, date=dd)
+            return np.array([w.X, w.Y, w.Z], dtype=float)
+        o_a, o_b = call(with_date, d_arg), call(with_date, alt[1])
+        if o_a.ok and ctx.returned(o_b, clause="no-exception[%s]" % alt[0], route="magnetic_field/fresh-object"):
+            ctx.le("the same date in its other accepted spelling gives the same field (nT)", float(np.abs(o_a.value - o_b.value).max()), 1e-9, {"spelling": alt[0], "date": str(d_arg)},
+                   route="magnetic_field/fresh-object")
     out = call(lambda: WMM(date=d_arg, latitude=lat, longitude=lon, height=h))
     if ctx.returned(out, route="constructor"):
         w = out.value
